@@ -646,6 +646,33 @@ def _max_depth_clauses():
     ]
 
 
+def _collect_definitions_clauses():
+    def dup(test, store):
+        def pred(p):
+            a = p.assumed(test)
+            if a is None:
+                return None
+            from py_gql.exc import SDLError
+            if a:
+                return p.outcome == "raise" and exc_is(p.payload, SDLError) and store not in p.events
+            return True if store in p.events or p.outcome == "raise" else None
+        return pred
+
+    def only_sdl(p):
+        from py_gql.exc import SDLError
+        if p.outcome != "raise" or any("raises" in t for t in p.trail):
+            return None
+        return exc_is(p.payload, SDLError)
+
+    return [
+        ("duplicate-type-rejected", "a second definition of a type name is rejected with an SDL error instead of replacing the first", dup("name in types", "store:types")),
+        ("duplicate-directive-rejected", "a second definition of a directive name is rejected with an SDL error", dup("name in directives", "store:directives")),
+        ("second-schema-definition-rejected", "a second schema definition is rejected with an SDL error",
+         lambda p: None if p.assumed("schema_definition is not None") is not True else (p.outcome == "raise")),
+        ("only-sdl-errors-raised-here", "the collector itself raises only SDL errors", only_sdl),
+    ]
+
+
 TRACE_CONTRACTS = [
     dict(id="BlockingExecutor.resolve_field", target="py_gql.execution.blocking_executor:BlockingExecutor.resolve_field", props=["C16"],
          config=Config(events=FIELD_EVENTS, nothrow=FIELD_NOTHROW), clauses=FIELD_CLAUSES,
@@ -689,6 +716,9 @@ TRACE_CONTRACTS = [
                                (r"^ValidationError$", lambda call, args, kwargs: "error(%s)" % ",".join("%s=%s" % (k.arg, __import__("ast").unparse(k.value)) for k in call.keywords))],
                        nothrow=[r"^max$", r"^errors\.append$", r"^ValidationError$", r"\.count$", r"\.values$"]),
          clauses=_max_depth_clauses(), assumes=["the depth of a path is its number of segments (selected_fields is bounded under C19's stand-in)"]),
+    dict(id="_collect_definitions", target="py_gql.sdl.schema_from_ast:_collect_definitions", props=["C11"],
+         config=Config(stmt_events=[(r"^types\[name\]$", "store:types"), (r"^directives\[name\]$", "store:directives")], nothrow=[r"^SDLError$"]),
+         clauses=_collect_definitions_clauses(), assumes=[]),
     dict(id="BlockingRuntime.map_value", target="py_gql.execution.runtime.blocking:BlockingRuntime.map_value", props=["C16", "C08"],
          config=Config(events=[(r"^then$", "then"), (r"^else_\[1\]$", "else")]),
          clauses=[("then-exactly-once-first", "`then` is invoked exactly once, first", lambda p: count(p.events, "then") == 1 and p.events[0] == "then"),
